@@ -10,16 +10,15 @@ open BandVerif.Generated
 
 def N : Nat := Frost.groupOrder
 
-def powMod (b e m : Nat) : Nat := Id.run do
-  let mut r := 1 % m
-  let mut base := b % m
-  let mut ex := e
-  for _ in [0:512] do
-    if ex = 0 then break
-    if ex % 2 = 1 then r := r * base % m
-    base := base * base % m
-    ex := ex / 2
-  return r
+/-- square-and-multiply with fuel (one unit per exponent bit) -/
+def powModF : Nat → Nat → Nat → Nat → Nat
+  | 0, _, _, m => 1 % m
+  | f + 1, b, e, m =>
+    if e = 0 then 1 % m
+    else if e % 2 = 1 then (b % m) * powModF f (b * b % m) (e / 2) m % m
+    else powModF f (b * b % m) (e / 2) m
+
+def powMod (b e m : Nat) : Nat := powModF 512 b e m
 
 /-- big.Int.ModInverse modulo the prime N (negative arguments are reduced first) -/
 def invN (a : Int) : Nat := powMod (a % (N : Int)).toNat (N - 2) N
